@@ -5,10 +5,11 @@ session table and the own address symbolic.  Checked: the station-list layout
 (6-byte stride from offset 36), the scan (from 0, step 1, compares exactly the
 six bytes of entry k with the own address, leaves early only on a match), and
 the complete result table over opcode x acking x known-session x changed-seq."""
+import os
 import re
 
 from ..common import Report, finish
-from ..facts import AnalysisBroken
+from ..facts import AnalysisBroken, walk, REPO
 from ..engine import Engine, run_entry, mk_obj
 from ..absint import Val
 from ..port import PortModel
@@ -34,6 +35,24 @@ def run(tier):
     rep.rule('R11.c', 'result table: Reset -> topology-wide iff real destination is broadcast; Hello -> hello; Discover -> acking/not, changed-seq iff a known session has another sequence number; everything else -> no event', floor=8)
     from .c16 import Ctx, check_find
     check_find(rep, Ctx(prog), 'R11.d')
+    # the classification is a function of the frame and the session table: nothing the classifier reaches may keep state of
+    # its own between calls (a "last match" hint, a memo of the previous frame)
+    from .c17 import mutable_statics, reachable
+    rep.rule('R11.f', 'the classifier and everything it calls use no mutable static storage (the verdict depends on frame and table only)', floor=1)
+    reach = reachable(prog, ix, 'derive_session_event')
+    used = 0
+    for name, (dix, rfn) in sorted(reach.items()):
+        if not (rfn.get('_file') or '').startswith(os.path.join(REPO, 'lltdResponder') + os.sep):
+            continue
+        muts = {n_.get('id'): n_ for n_ in mutable_statics(dix)}
+        for n_ in walk(rfn):
+            if n_.get('kind') == 'DeclRefExpr' and (n_.get('referencedDecl') or {}).get('id') in muts:
+                used += 1
+                d_ = muts[n_['referencedDecl']['id']]
+                rep.fail('R11.f', 'static|%s|%s' % (name, d_.get('name')),
+                         '%s, reached from derive_session_event, uses the mutable static `%s`: the classification of a frame then depends on earlier calls, not only on '
+                         'the frame and the table' % (name, d_.get('name')), node=n_, function=name)
+    rep.ok('R11.f')
     # (a) layout
     t = ix.parse_type('lltd_discover_upper_header_t')
     f = t.rec.field('stationList')
